@@ -14,6 +14,7 @@ import hashlib
 import json
 import os
 import random
+import re
 import time
 
 from lib import vcommon
@@ -26,7 +27,7 @@ ASSUMPTIONS = [
     "Python attribute loads/stores are atomic and sequentially consistent (GIL); pre-emption inside C code / CPython containers is not represented",
     "a socket send is offered all pending bytes (superset of the real chunking by outbuf and SO_SNDBUF); buffers are counters (FIFO contents: C17)",
     "release is stated as absence of bad idle states (I/O thread blocked in select, or spinning through no-op poll turns) -- no fairness, no timers: the 1 s select timeout of the real loop only re-runs the same no-op turn",
-    "partial theorems: release needs 1 <= outbuf_high_watermark, send_bytes <= outbuf_high_watermark, and (channel_request_lookahead = 0 or closed outbufs report no bytes); abort needs the last of these; outside: kf_c12_hw_zero, kf_c12_below_send_bytes, kf_c12_tail_race (KNOWN_FINDINGS.txt)",
+    "the theorems speak for the code as repaired by 6aba4bf / daf1a85 / 7fa6a60 (shape flags all true; pinned by the shape audit); 0 <= outbuf_high_watermark is assumed (a negative watermark is not a configuration)",
 ]
 
 HEADER_BASE = 92   # len of the response head for a 1-digit Content-Length (fake clock pins Date)
@@ -140,6 +141,7 @@ class Campaign:
         self.hwsb = {}
         self.samples = []
         self.max_excess = None
+        self.conf_fail = []
 
     def one(self, scn, schedule=(), policy=None):
         ctx = self.ctx
@@ -188,11 +190,7 @@ class Campaign:
             self.events += matched
             if not ok:
                 self.follow_bad += 1
-                self.ctx.report("conformance:" + detail.split(":")[0][:40],
-                                "the model Model/ChanFlow.v does not follow the real trace: " + detail,
-                                {"kind": "conformance", "scenario": scn, "choices": choices, "verdict": verdict,
-                                 "expected": "every real labelled operation is the model's next step and leads to the same abstract state",
-                                 "observed": detail, "failing_input_found": True})
+                self.conf_fail.append((len(choices), detail, scn, choices, verdict))
         self.pending = []
 
 
@@ -226,8 +224,9 @@ def run(ctx):
     # ---- (2)+(3) campaign on the real code
     camp = Campaign(ctx, runner)
     rng = ctx.rng
-    budget = 420.0 if thorough else 55.0
+    budget = 420.0 if thorough else 30.0
     n_scn = 0
+    t0 = time.time()
     while time.time() - t0 < budget and n_scn < (6000 if thorough else 400):
         scn = gen_scenario(rng)
         scn["gran"] = "attrs" if rng.random() < 0.25 else "locks"
@@ -249,6 +248,14 @@ def run(ctx):
         st = explore(run_case, 2, limit=(4000 if thorough else 250))
         exh.append({"scenario": scn["script"], "runs": st["runs"], "per_preemption_level": st["per_preemption_level"], "truncated": st["truncated"]})
     camp.flush()
+    # the two shortest diverging traces are enough to replay a broken tie (the monitors' replays show the property)
+    for n_, detail, scn_, choices_, verdict_ in sorted(camp.conf_fail, key=lambda x: x[0])[:2]:
+        m = re.search(r"event \d+ (\w):(\w+):.*?(MISMATCH;\w[\w-]*|field \w+)", detail)
+        ckey = "%s-%s-%s" % (m.group(1), m.group(2), m.group(3).replace(";", "-").replace(" ", "-")) if m else detail[:30]
+        ctx.report("conformance:" + ckey, "the model Model/ChanFlow.v does not follow the real trace: " + detail,
+                   {"kind": "conformance", "scenario": scn_, "choices": choices_, "verdict": verdict_,
+                    "expected": "every real labelled operation is the model's next step and leads to the same abstract state",
+                    "observed": detail, "failing_input_found": True})
 
     ctx.oblige("K-chanflow: the extracted model follows every real trace (same next operation, same abstract state after it)",
                runner is not None and camp.follow_bad == 0 and camp.followed > 0,
@@ -260,26 +267,26 @@ def run(ctx):
     # ---- (4) the model's own breadth-first search agrees with the theorems on small instances
     bfs = []
     if runner is not None:
-        qs = ["explore 1 1 0 1 2.1:0 400000 1", "explore 2 2 0 0 3.1:0 400000 1", "explore 0 1 0 0 1.1:0 400000 1",
-              "explore 1 3 0 0 2.1:0 400000 1"]
+        qs = ["explore 0 1 0 1 111 1.1:0 400000 1", "explore 1 3 0 1 111 2.1:0 400000 1", "explore 2 3 0 1 111 3.1:0 400000 1",
+              "explore 0 1 0 0 011 1.1:0 400000 1", "explore 1 3 0 0 101 2.1:0 400000 1"]
         if thorough:
-            qs += ["explore 2 1 1 0 3:0/1:1 3000000 2", "explore 2 1 1 1 3:0/1:1 3000000 2", "explore 3 2 0 1 2.2:0/1:1 3000000 2"]
+            qs += ["explore 2 1 1 1 111 3:0/1:1 3000000 2", "explore 2 1 1 1 110 3:0/1:1 3000000 2", "explore 3 2 0 1 111 2.2:0/1:1 3000000 2"]
         ans = runner.query(qs)
         okb = True
         for q, a in zip(qs, ans):
             f = dict(t.split("=", 1) for t in a.split() if "=" in t)
-            hw, sb, look, res = [int(x) for x in q.split()[1:5]]
-            safe = hw >= 1 and sb <= hw and (look == 0 or res == 0)
-            bfs.append({"params": q.split()[1:6], "states": int(f.get("states", -1)), "bound_bad": int(f.get("bound_bad", -1)),
+            fix = q.split()[5]
+            safe = fix == "111"
+            bfs.append({"params": q.split()[1:7], "states": int(f.get("states", -1)), "bound_bad": int(f.get("bound_bad", -1)),
                         "release_bad": int(f.get("release_bad", -1)), "parked_after_close": int(f.get("parked_disc", -1)),
-                        "theorem_range": safe})
+                        "code_as_it_is": safe})
             if f.get("bound_bad") != "0" or f.get("truncated") != "0":
                 okb = False
             if safe and (f.get("release_bad") != "0" or f.get("parked_disc") != "0"):
                 okb = False
-            if not safe and hw == 0 and f.get("release_bad") == "0":
-                okb = False   # the refutation must be visible too
-        ctx.oblige("model BFS on small instances agrees with the theorems (bound never violated; release/abort never violated inside the proved range, violated at high_watermark=0)",
+            if not safe and f.get("release_bad") == "0" and f.get("parked_disc") == "0":
+                okb = False   # the old shapes must show their defect
+        ctx.oblige("model BFS on small instances agrees with the theorems (bound never violated; release/abort never violated for the code as it is, violated for each old shape)",
                    okb, json.dumps(bfs)[:300])
 
     ctx.coverage.update({
